@@ -71,7 +71,11 @@ def match(known: list[dict], prop: str, job: dict, cres: dict, v: dict) -> Optio
             continue
         ok = True
         for name in filter(None, ent.get("match", "").split(",")):
-            if not MATCHERS[name](job, cres, v):
+            try:
+                hit = MATCHERS[name](job, cres, v)
+            except Exception:  # pylint: disable=broad-except
+                hit = False  # a matcher that cannot decide never suppresses a violation
+            if not hit:
                 ok = False
                 break
         if ok:
